@@ -120,6 +120,33 @@ func Structured(p, max *big.Int) []*big.Int {
 	return out
 }
 
+// related returns a value that shares its low 64-bit words with x and differs from it in one higher word (by one, by a corner value, or at random).
+func related(x, max *big.Int, rng *rand.Rand) *big.Int {
+	words := 1 + max.BitLen()/64
+	j := uint(64 * (1 + rng.Intn(words)))
+	low := new(big.Int).And(x, new(big.Int).Sub(new(big.Int).Lsh(big.NewInt(1), j), big.NewInt(1)))
+	hi := new(big.Int).Rsh(x, j)
+	switch rng.Intn(5) {
+	case 0:
+		hi.Add(hi, big.NewInt(1))
+	case 1:
+		if hi.Sign() > 0 {
+			hi.Sub(hi, big.NewInt(1))
+		}
+	case 2:
+		hi.SetInt64(0)
+	case 3:
+		hi = new(big.Int).Rsh(max, j)
+	default:
+		hi = new(big.Int).Rand(rng, new(big.Int).Add(new(big.Int).Rsh(max, j), big.NewInt(1)))
+	}
+	v := new(big.Int).Or(low, new(big.Int).Lsh(hi, j))
+	if v.Cmp(max) > 0 {
+		v.Set(max)
+	}
+	return v
+}
+
 func (f *Field) snapshot() [][]int {
 	o := make([][]int, f.NRegs)
 	for r := 0; r < f.NRegs; r++ {
@@ -232,7 +259,14 @@ func Run(f *Field, rng *rand.Rand, n int, emit func(Event)) {
 		case c < 3:
 			b := bins[c]
 			if b.fn != nil {
-				doBin(b, pat, pick(), pick())
+				vx, vy := pick(), pick()
+				if rng.Intn(3) == 0 { // related operands: equal low words, the difference sits in ONE higher word (borrows and carries have to travel)
+					vy = related(vx, f.Max, rng)
+					if rng.Intn(2) == 0 {
+						vx, vy = vy, vx
+					}
+				}
+				doBin(b, pat, vx, vy)
 			}
 		case c == 3 && f.Sqr != nil:
 			e := base("sqr", x, x, z)
